@@ -19,6 +19,7 @@ from harness.core import Prop, cnat, clist
 
 TOL = 1e-12
 BIOT_UPDATE_KEY = "biot: discretize with update_discretization=True raises TypeError (dict-valued coupling matrices indexed by rows)"
+BIOT_CELLROW_KEY = "biot: update_discretization replaces cell rows computed on an incomplete stencil"
 SHORTCUT_KEY = "split: a later subproblem covers all faces (shortcut replaces the accumulated sum)"
 
 
@@ -186,7 +187,8 @@ def ints(a):
 
 
 # face-row / cell-row classification of the Biot matrices
-CELL_ROW = ("displacement_divergence", "bound_displacement_divergence", "mpsa_consistency")
+CELL_ROW = ("displacement_divergence", "bound_displacement_divergence",
+            "boundary_displacement_divergence", "mpsa_consistency")
 
 
 class C14(Prop):
@@ -235,8 +237,10 @@ class C14(Prop):
         "external (its output is an input of the model). Column maps (cell_map, vector "
         "expansions nd) are abstracted: local matrices have global columns. Biot's cell-row "
         "matrices are compared after partial discretisation only on cells all of whose faces "
-        "are active. Open finding: Biot.discretize with update_discretization=True raises "
-        "TypeError (Biot.update_discretization, the method, is exercised and exact).")
+        "are active. Open findings: Biot.discretize with update_discretization=True raises "
+        "TypeError; Biot.update_discretization (the method) returns wrong rows of the cell-row "
+        "matrices for cells only some of whose faces are re-discretised (face-row matrices are "
+        "exact; Mpfa and Mpsa are exact).")
     rule = ("2-D Cartesian (3x3..6x5) and structured triangle grids with perturbed interior "
             "nodes, few-cell Delaunay triangulations of random points (unbalanced partitions), structured "
             "tetrahedral grids and sheared extruded triangle grids (prisms: 3- and 4-node faces), thorough: also 3x3x2..4x3x3 Cartesian; random anisotropic tensors and mixed "
@@ -542,6 +546,10 @@ class C14(Prop):
     def finding_key(self, case, res, why):
         if case["kind"] == "update" and case.get("disc") == "biot" and "err" in res:
             return BIOT_UPDATE_KEY
+        if case["kind"] == "update_method" and case.get("disc") == "biot" and "diff" in res:
+            bad = [k for k, v in res["diff"].items() if not (v <= TOL)]
+            if bad and all(k.split("/")[0] in CELL_ROW for k in bad):
+                return BIOT_CELLROW_KEY
         if case["kind"] == "split" and any(
                 len(s["faces"]) == res["nf"] for s in res.get("subs", [])[1:]):
             return SHORTCUT_KEY
